@@ -175,6 +175,7 @@ static void interrupt_prog()
                 {
                     pika::this_thread::disable_interruption di;
                     s.phase = 1;
+                    { pika::this_thread::disable_interruption nested; }    // a helper with its own guard: the outer one still holds
                     pika::this_thread::yield();
                     pika::this_thread::interruption_point();    // disabled: must not throw
                     pika::this_thread::yield();
